@@ -40,6 +40,7 @@ PROPERTIES
   Act_C06_Flows
   Act_C06_AdjustApplies
   Act_C06_Rate
+  Act_C06_TouchAccrues
   Act_C06_RefundOnce
   Act_C13_OnceOnTime
 CHECK_DEADLOCK FALSE
